@@ -207,12 +207,13 @@ func Minimize(t *testing.T, spec Spec, sig string, budget time.Duration) *Result
 	fails := func(keep []int) *Result {
 		s := spec
 		s.Keep = keep
-		if s.Keep == nil {
-			s.Keep = []int{}
-		}
+		s.Masked = true
 		sp := s
 		curSpec.Store(&sp)
 		r := RunOne(t, s)
+		if os.Getenv("VSIM_DEBUG") != "" {
+			fmt.Fprintf(os.Stderr, "minimize: keep=%v -> viol=%v sig=%q tooling=%q\n", keep, r.Violations, r.Sig, r.Tooling)
+		}
 		if len(r.Violations) > 0 && r.Sig == sig && r.Tooling == "" {
 			return r
 		}
@@ -223,7 +224,7 @@ func Minimize(t *testing.T, spec Spec, sig string, budget time.Duration) *Result
 	for i := range cur {
 		cur[i] = i
 	}
-	if spec.Keep != nil {
+	if spec.Masked {
 		cur = spec.Keep
 	}
 	best := first
